@@ -562,13 +562,23 @@ fn run_bld(ws: &[&str]) -> Option<(String, Vec<String>)> {
             None
         }
     };
-    let ok_call = |c: &&str| *c == "limit" || *c == "workers" || numarg(c, "blocking").is_some() || numarg(c, "backlog").is_some() || numarg(c, "timeout").is_some();
+    let ok_call = |c: &&str| *c == "limit" || *c == "workers" || *c == "listen" || numarg(c, "blocking").is_some() || numarg(c, "backlog").is_some() || numarg(c, "timeout").is_some();
     if !((1..=8).contains(&workers) && (1..=16).contains(&limit) && workers * limit <= n && n <= 64 && calls.iter().all(ok_call))
         || calls.iter().filter(|c| **c == "limit").count() != 1
         || calls.iter().filter(|c| **c == "workers").count() != 1
+        || calls.iter().filter(|c| **c == "listen").count() > 3
     {
         return None;
     }
+    // `rel=k`: at the plateau the first k held connections are closed by their clients, one at a time; the slot
+    // each one frees may only be refilled on the worker that freed it
+    let rel: usize = match kv(ws, "rel") {
+        None => 0,
+        Some(v) => match v.parse() {
+            Ok(k) if k <= 8 && !v.starts_with('+') => k,
+            _ => return None,
+        },
+    };
     struct Shared {
         maxper: AtomicUsize,
         started: AtomicUsize,
@@ -606,9 +616,17 @@ fn run_bld(ws: &[&str]) -> Option<(String, Vec<String>)> {
             };
             let addr = lst.local_addr().map_err(|e| e.to_string())?;
             let mut b = actix_server::Server::build();
+            let mut extra = 0;
             for c in &calls {
                 let arg = c.split(':').nth(1).and_then(|v| v.parse::<usize>().ok()).unwrap_or(0);
                 b = match c.split(':').next().unwrap() {
+                    // a further listener (never connected to) registered at this point of the call order
+                    "listen" => {
+                        extra += 1;
+                        let l = std::net::TcpListener::bind("127.0.0.1:0").map_err(|e| format!("bind: {e}"))?;
+                        b.listen(format!("verif-extra-{extra}"), l, || actix_service::fn_service(|_s: actix_rt::net::TcpStream| async { Ok::<_, ()>(()) }))
+                            .map_err(|e| format!("listen: {e}"))?
+                    }
                     "limit" => b.max_concurrent_connections(limit),
                     "workers" => b.workers(workers),
                     "blocking" => b.worker_max_blocking_threads(arg),
@@ -637,6 +655,11 @@ fn run_bld(ws: &[&str]) -> Option<(String, Vec<String>)> {
                             sh.started.fetch_add(1, Ordering::SeqCst);
                             while !sh.release.load(Ordering::SeqCst) {
                                 tokio::time::sleep(Duration::from_millis(5)).await;
+                                // the client has closed (or reset) the connection: it ends
+                                match stream.try_read(&mut [0u8; 1]) {
+                                    Err(e) if e.kind() == io::ErrorKind::WouldBlock => {}
+                                    _ => break,
+                                }
                             }
                             INPROG.with(|c| c.set(c.get() - 1));
                             sh.done.fetch_add(1, Ordering::SeqCst);
@@ -708,6 +731,21 @@ fn run_bld(ws: &[&str]) -> Option<(String, Vec<String>)> {
             }
             tokio::time::sleep(Duration::from_millis(400)).await;
             let started = sh.started.load(Ordering::SeqCst);
+            let mut clients: std::collections::VecDeque<_> = clients.into();
+            for k in 0..rel.min(want) {
+                // one held connection ends; if one is waiting it takes the freed slot (on that worker)
+                drop(clients.pop_front());
+                let t0 = std::time::Instant::now();
+                while sh.done.load(Ordering::SeqCst) < k + 1 && t0.elapsed() < Duration::from_secs(30) {
+                    tokio::time::sleep(Duration::from_millis(10)).await;
+                }
+                let refill = (want + k + 1).min(n);
+                let t0 = std::time::Instant::now();
+                while sh.started.load(Ordering::SeqCst) < refill && t0.elapsed() < Duration::from_secs(3) {
+                    tokio::time::sleep(Duration::from_millis(10)).await;
+                }
+                tokio::time::sleep(Duration::from_millis(200)).await;
+            }
             let maxper = sh.maxper.load(Ordering::SeqCst);
             sh.release.store(true, Ordering::SeqCst);
             let t1 = std::time::Instant::now();
@@ -762,6 +800,8 @@ fn run_pse(ws: &[&str]) -> Option<(String, Vec<String>)> {
         let res = std::thread::spawn(move || -> Result<(usize, usize), String> {
             actix_rt::System::new().block_on(async move {
                 let served = Arc::new(AtomicUsize::new(0));
+                // which listener's service served: the names are given in reverse lexicographic order of binding
+                let served_by: Arc<Vec<AtomicUsize>> = Arc::new((0..kinds2.len()).map(|_| AtomicUsize::new(0)).collect());
                 let mut b = actix_server::Server::build().workers(workers).disable_signals();
                 enum A {
                     Tcp(std::net::SocketAddr),
@@ -770,17 +810,23 @@ fn run_pse(ws: &[&str]) -> Option<(String, Vec<String>)> {
                 let mut addrs = vec![];
                 for (i, k) in kinds2.iter().enumerate() {
                     let sv = served.clone();
+                    let sb = served_by.clone();
                     let fac = move || {
                         let sv = sv.clone();
+                        let sb = sb.clone();
                         actix_service::fn_service(move |_s: actix_rt::net::TcpStream| {
+                            sb[i].fetch_add(1, Ordering::SeqCst);
                             sv.fetch_add(1, Ordering::SeqCst);
                             async { Ok::<_, ()>(()) }
                         })
                     };
                     let sv = served.clone();
+                    let sb = served_by.clone();
                     let ufac = move || {
                         let sv = sv.clone();
+                        let sb = sb.clone();
                         actix_service::fn_service(move |_s: actix_rt::net::UnixStream| {
+                            sb[i].fetch_add(1, Ordering::SeqCst);
                             sv.fetch_add(1, Ordering::SeqCst);
                             async { Ok::<_, ()>(()) }
                         })
@@ -800,10 +846,10 @@ fn run_pse(ws: &[&str]) -> Option<(String, Vec<String>)> {
                             };
                             let addr = lst.local_addr().map_err(|e| e.to_string())?;
                             if k == "tl" {
-                                b = b.listen(format!("l{i}"), lst, fac).map_err(|e| format!("listen: {e}"))?;
+                                b = b.listen(format!("l{}", 9 - i), lst, fac).map_err(|e| format!("listen: {e}"))?;
                             } else {
                                 drop(lst); // the port is free again; `bind` creates its own socket on it
-                                b = b.bind(format!("l{i}"), addr, fac).map_err(|e| format!("bind: {e}"))?;
+                                b = b.bind(format!("l{}", 9 - i), addr, fac).map_err(|e| format!("bind: {e}"))?;
                             }
                             addrs.push(A::Tcp(addr));
                         }
@@ -814,9 +860,9 @@ fn run_pse(ws: &[&str]) -> Option<(String, Vec<String>)> {
                             let _ = std::fs::remove_file(&p);
                             if k == "ul" {
                                 let lst = std::os::unix::net::UnixListener::bind(&p).map_err(|e| format!("uds bind: {e}"))?;
-                                b = b.listen_uds(format!("l{i}"), lst, ufac).map_err(|e| format!("listen_uds: {e}"))?;
+                                b = b.listen_uds(format!("l{}", 9 - i), lst, ufac).map_err(|e| format!("listen_uds: {e}"))?;
                             } else {
-                                b = b.bind_uds(format!("l{i}"), &p, ufac).map_err(|e| format!("bind_uds: {e}"))?;
+                                b = b.bind_uds(format!("l{}", 9 - i), &p, ufac).map_err(|e| format!("bind_uds: {e}"))?;
                             }
                             addrs.push(A::Uds(p));
                         }
@@ -844,24 +890,38 @@ fn run_pse(ws: &[&str]) -> Option<(String, Vec<String>)> {
                     }
                     served.load(Ordering::SeqCst)
                 };
-                // A on every listener: served
-                for a in &addrs {
+                // A on every listener, one at a time: served, and by the service registered for THAT listener
+                for (i, a) in addrs.iter().enumerate() {
                     connect(a, &mut keep)?;
+                    let got = wait_for(i + 1, served.clone(), Duration::from_secs(30)).await;
+                    if got < i + 1 {
+                        return Err(format!("only {got} of {} first connections were served within 30 s", i + 1));
+                    }
+                    let by: Vec<usize> = served_by.iter().map(|c| c.load(Ordering::SeqCst)).collect();
+                    let want: Vec<usize> = (0..by.len()).map(|j| usize::from(j <= i)).collect();
+                    if by != want {
+                        return Err(format!("misrouted: the connection made to listener {i} was not served by listener {i}'s service (served per listener {by:?}, expected {want:?})"));
+                    }
                 }
-                let s1 = wait_for(addrs.len(), served.clone(), Duration::from_secs(30)).await;
-                if s1 < addrs.len() {
-                    return Err(format!("only {s1} of {} first connections were served within 30 s", addrs.len()));
+                let s1 = served.load(Ordering::SeqCst);
+                let mut during = 0;
+                let mut after = 0;
+                let mut base = s1;
+                // two pause / resume cycles: the second pause must take effect like the first
+                for _cycle in 0..2 {
+                    handle.pause().await;
+                    tokio::time::sleep(settle).await;
+                    for a in &addrs {
+                        connect(a, &mut keep)?;
+                    }
+                    tokio::time::sleep(Duration::from_millis(400)).await;
+                    let d = served.load(Ordering::SeqCst) - base;
+                    handle.resume().await;
+                    let s3 = wait_for(base + addrs.len(), served.clone(), Duration::from_secs(30)).await;
+                    during += d;
+                    after += s3 - base - d;
+                    base = s3;
                 }
-                handle.pause().await;
-                tokio::time::sleep(settle).await;
-                for a in &addrs {
-                    connect(a, &mut keep)?;
-                }
-                tokio::time::sleep(Duration::from_millis(400)).await;
-                let during = served.load(Ordering::SeqCst) - s1;
-                handle.resume().await;
-                let s3 = wait_for(2 * addrs.len(), served.clone(), Duration::from_secs(30)).await;
-                let after = s3 - s1 - during;
                 drop(keep);
                 // (a server whose accept thread no longer reacts cannot be stopped: do not wait long for it)
                 let _ = tokio::time::timeout(Duration::from_secs(8), handle.stop(false)).await;
@@ -896,6 +956,12 @@ fn run_pse(ws: &[&str]) -> Option<(String, Vec<String>)> {
     let mut t3 = vec![];
     if !err.is_empty() {
         if err.contains("first connections were served") {
+            // an idle, running, never-paused server did not hand a connection to its listener's service
+            t3.push(format!("C05\t{err}"));
+            t3.push(format!("C01\t{err}"));
+        }
+        if err.contains("misrouted") {
+            t3.push(format!("C01\t{err}"));
             t3.push(format!("C05\t{err}"));
         }
         return Some((err, t3));
@@ -903,8 +969,8 @@ fn run_pse(ws: &[&str]) -> Option<(String, Vec<String>)> {
     if during > 0 {
         t3.push(format!("C05\t{during} connection(s) were dispatched while the server was paused (listeners {}; pause() had returned at least 4.8 s earlier in the last of three attempts)", kinds.join(",")));
     }
-    if during + after < nl {
-        t3.push(format!("C05\tafter resume only {} of {nl} connections that arrived during the pause were served within 30 s (listeners {}): a listener is stranded", during + after, kinds.join(",")));
+    if during + after < 2 * nl {
+        t3.push(format!("C05\tafter resume only {} of {} connections that arrived during the two pauses were served within 30 s (listeners {}): a listener is stranded", during + after, 2 * nl, kinds.join(",")));
     }
     Some((format!("during={during} after={after}"), t3))
 }
@@ -1168,9 +1234,15 @@ fn run(a: &Args) {
                                     if !report.exited && !w.stop_seen && w.waker.queued() == 0 {
                                         if let Some(want) = w.last_cmd_pause {
                                             if after.paused != want {
-                                                w.t3.push(("C05".into(), format!(
+                                                let msg = format!(
                                                     "every command has been processed and the last one issued was `{}`, but the accept loop is {}: commands do not take effect in the order they were issued",
-                                                    if want { "pause" } else { "resume" }, if after.paused { "paused" } else { "running" })));
+                                                    if want { "pause" } else { "resume" }, if after.paused { "paused" } else { "running" });
+                                                w.t3.push(("C05".into(), msg.clone()));
+                                                if !want {
+                                                    // resumed by command but the loop still believes it is paused: the
+                                                    // back-pressure release (gated by that flag) is lost
+                                                    w.t3.push(("C03".into(), msg));
+                                                }
                                             }
                                         }
                                     }
@@ -1202,7 +1274,10 @@ fn run(a: &Args) {
                                         w.ever_no_handles = true;
                                     }
                                     // C03 / C01 / C08 at quiescent states: two consecutive chunk-free iterations
-                                    if quiet && c.prev_op_was_quiet_poll && !after.paused && !report.exited && !c.stop_cmd
+                                    // (paused as the USER sees it: by the commands issued, all of which have been processed
+                                    // when the waker queue is empty — not by the loop's own flag)
+                                    let paused_by_cmd = if w.waker.queued() == 0 { w.last_cmd_pause == Some(true) } else { after.paused };
+                                    if quiet && c.prev_op_was_quiet_poll && !paused_by_cmd && !report.exited && !c.stop_cmd
                                         && after.socket_deadlines.iter().all(|d| d.is_none())
                                     {
                                         let tags: &[&str] = if w.any_die { &["C08", "C01", "C03"] } else { &["C03", "C01"] };
@@ -1513,6 +1588,13 @@ fn gen(a: &Args) {
         writeln!(w, "pse workers=1 ls=xx").unwrap();
         writeln!(w, "pse workers=0 ls=tb").unwrap();
     }
+    if prop == "C01" {
+        // every listener's connections reach THAT listener's service: real `Server`s through the public builder,
+        // listener names not in lexicographic order of registration, TCP and UDS mixed
+        writeln!(w, "case builder-routing workers=1 limit=1 listeners=tcp").unwrap();
+        writeln!(w, "pse workers=1 ls=tb,tl,tb").unwrap();
+        writeln!(w, "pse workers=2 ls=ub,tl").unwrap();
+    }
     if prop == "C02" {
         // the configured limit reaches the workers whatever the order of the builder calls: real `Server`s
         // through the public `ServerBuilder` API, clients held open (each scenario takes about half a second)
@@ -1529,6 +1611,14 @@ fn gen(a: &Args) {
         writeln!(w, "bld workers=2 limit=1 n=4 calls=workers,limit kill=1").unwrap();
         writeln!(w, "bld workers=1 limit=2 n=4 calls=limit,workers,blocking:4 kill=1").unwrap();
         writeln!(w, "bld workers=1 limit=1 n=1 calls=limit,workers kill=2").unwrap();
+        // held connections end one at a time: the freed slot is refilled on the worker that freed it
+        writeln!(w, "bld workers=2 limit=1 n=5 calls=workers,limit rel=2").unwrap();
+        writeln!(w, "bld workers=3 limit=2 n=9 calls=limit,workers,blocking:4 rel=3").unwrap();
+        // further listeners registered before / after the limit is configured
+        writeln!(w, "bld workers=1 limit=1 n=3 calls=listen,listen,workers,limit").unwrap();
+        writeln!(w, "bld workers=2 limit=2 n=6 calls=listen,limit,listen,listen,workers rel=1").unwrap();
+        writeln!(w, "bld workers=1 limit=1 n=1 calls=limit,workers rel=9").unwrap();
+        writeln!(w, "bld workers=1 limit=1 n=1 calls=limit,workers,listen,listen,listen,listen").unwrap();
         let extra = if thorough { 40 } else { 4 };
         for _ in 0..extra {
             let wk = 1 + rng.below(3) as usize;
@@ -1540,12 +1630,16 @@ fn gen(a: &Args) {
                     calls.push(format!("{k}:{}", 1 + rng.below(hi)));
                 }
             }
+            for _ in 0..rng.below(4) {
+                calls.push("listen".to_string());
+            }
             // Fisher-Yates
             for i in (1..calls.len()).rev() {
                 let j = rng.below(i + 1);
                 calls.swap(i, j);
             }
-            writeln!(w, "bld workers={wk} limit={l} n={n} calls={}", calls.join(",")).unwrap();
+            let rel = rng.below(4);
+            writeln!(w, "bld workers={wk} limit={l} n={n} calls={} rel={rel}", calls.join(",")).unwrap();
         }
         // malformed
         writeln!(w, "bld workers=0 limit=1 n=1 calls=limit,workers").unwrap();
